@@ -1302,6 +1302,17 @@ crafted(struct doc *d, int which)
 				 "LOCATION:/tmp\r/x\r\nDTSTART:20200301T100000Z\r\nX-ECHS-OFILE:/tmp/o\rut\r\nEND:VEVENT\r\nEND:VCALENDAR\r\n");
 			break;
 		}
+		if (which == 19 + 46 || which == 19 + 47) {
+			snprintf(d->name, sizeof(d->name), "input that stops inside an unknown component behind a finished event that has list-valued parts (%s)", which == 19 + 46 ? "VTIMEZONE" : "X-COMPONENT nested twice");
+			doc_puts(d, "BEGIN:VCALENDAR\nBEGIN:VEVENT\nUID:trunc-u1\nSUMMARY:one\nDTSTART:20200301T100000Z\nRRULE:FREQ=DAILY;COUNT=3\nRDATE:20200310T100000Z\n"
+				 "EXDATE:20200302T100000Z\nATTENDEE:mailto:a@example.com\nEND:VEVENT\n");
+			if (which == 19 + 46) {
+				doc_puts(d, "BEGIN:VTIMEZONE\nTZID:Europe/Berlin\nBEGIN:STANDARD\nDTSTART:19701025T030000\n");
+			} else {
+				doc_puts(d, "BEGIN:X-COMPONENT\nX-A:1\nBEGIN:X-INNER\nX-B:2\nEND:X-INNER\nX-C:3");
+			}
+			break;
+		}
 		if (which == 19 + 45) {
 			snprintf(d->name, sizeof(d->name), "list-valued lines (BYDAY, RDATE, EXDATE, X-GA-STATE) behind longer lines that are full of commas and weekday names");
 			doc_puts(d, "BEGIN:VCALENDAR\nBEGIN:VEVENT\nUID:stale1\n"
@@ -1393,7 +1404,7 @@ enum_docs(bool samples)
 			break;
 		}
 		n = D.n;
-		cur_slug = samples ? NULL : i < (int)(sizeof(crafted_slug) / sizeof(*crafted_slug)) ? crafted_slug[i] : i == 19 + 44 ? "lone-cr" : i == 19 + 45 ? "stale-commas" : "long-line-escapes";
+		cur_slug = samples ? NULL : i < (int)(sizeof(crafted_slug) / sizeof(*crafted_slug)) ? crafted_slug[i] : i == 19 + 44 ? "lone-cr" : i == 19 + 45 ? "stale-commas" : i >= 19 + 46 ? "truncated-in-unknown-component" : "long-line-escapes";
 		vd_shape("%s/load", D.fam);
 		if (vd_next()) {
 			const unsigned sv = parts_mask;
